@@ -668,7 +668,34 @@ func genC12Seq(t *rapid.T) C12Seq {
 	newKey := 0
 	nb := rapid.IntRange(1, 3).Draw(t, "nbatches")
 	for i := 0; i < nb; i++ {
-		s.Batches = append(s.Batches, genC12PatchBatch(t, nrec, in, out, hasN, &newKey))
+		b := genC12PatchBatch(t, nrec, in, out, hasN, &newKey)
+		if b.Create {
+			switch rapid.IntRange(0, 3).Draw(t, "seedkind") {
+			case 0:
+				// default empty seed {}: the created body only holds what the ops write
+				b.Seed = nil
+				for j := range b.Patches {
+					if b.Patches[j].Key < 0 {
+						b.Patches[j].Cond = nil // a condition on a missing field is not modelled
+					}
+				}
+			case 1:
+				// a seed drawn like a stored record, biased to sit INSIDE the cap filter already
+				seed := Body{Status: rapid.SampledFrom(in).Draw(t, "seed-in-st"), Owner: rapid.SampledFrom([]string{"none", "a"}).Draw(t, "seed-ow"), N: int64(rapid.IntRange(12, 20).Draw(t, "seed-n"))}
+				b.Seed = &seed
+				// more new keys whose ops keep the record where the seed put it
+				extra := rapid.IntRange(1, 3).Draw(t, "seed-extra")
+				for j := 0; j < extra; j++ {
+					newKey++
+					ops := []POp{{Kind: "set-owner", S: rapid.SampledFrom([]string{"a", "b"}).Draw(t, "seed-extra-ow")}}
+					if rapid.IntRange(0, 3).Draw(t, "seed-extra-out") == 0 {
+						ops = append(ops, POp{Kind: "set-status", S: rapid.SampledFrom(out).Draw(t, "seed-extra-st")})
+					}
+					b.Patches = append(b.Patches, C12Patch{Key: -newKey, Ops: ops})
+				}
+			}
+		}
+		s.Batches = append(s.Batches, b)
 	}
 	return s
 }
@@ -687,18 +714,20 @@ func runC12Seq(s C12Seq) pbt.Outcome {
 	type rec struct {
 		exists bool
 		b      Body
+		has    fieldSet
 	}
 	model := map[string]*rec{}
 	for i, r := range s.Recs {
-		model[keyOf(i)] = &rec{true, r.B}
+		model[keyOf(i)] = &rec{true, r.B, allFields}
 	}
 	capP := &hydrapb.Cap{Filter: s.Cap.proto(), MaxMatching: s.Max}
 	transitions, refused, inIn := 0, 0, 0
+	createSeedIn, createOpsIn, createRefused, createEmptySeed := 0, 0, 0, 0
 	for bi, b := range s.Batches {
 		// the documented four-cell rule
 		count := 0
 		for _, r := range model {
-			if r.exists && evalFilt(&s.Cap, r.b) {
+			if r.exists && evalFiltPartial(&s.Cap, r.b, r.has) {
 				count++
 			}
 		}
@@ -713,24 +742,41 @@ func runC12Seq(s C12Seq) pbt.Outcome {
 			r := model[k]
 			creating := r == nil || !r.exists
 			var input Body
+			var inHas fieldSet
 			if creating {
 				if !b.Create {
 					want = append(want, hydrapb.PatchResult_KEY_NOT_FOUND)
 					continue
 				}
-				input = *b.Seed
+				if b.Seed != nil {
+					input, inHas = *b.Seed, allFields
+				} // else: the default empty map
 			} else {
-				input = r.b
+				input, inHas = r.b, r.has
 			}
-			if !evalCond(p.Cond, input) {
+			if p.Cond != nil && !evalCond(p.Cond, input) {
 				want = append(want, hydrapb.PatchResult_CONDITION_NOT_MET)
 				continue
 			}
-			outB := applyOps(p.Ops, input)
-			pre := !creating && evalFilt(&s.Cap, input)
-			post := evalFilt(&s.Cap, outB)
+			outB, outHas := applyOpsPartial(p.Ops, input, inHas)
+			// a record created by this call was not there before: never "pre matches"
+			pre := !creating && evalFiltPartial(&s.Cap, input, inHas)
+			post := evalFiltPartial(&s.Cap, outB, outHas)
 			if pre && post {
 				inIn++
+			}
+			if creating && post {
+				if b.Seed != nil && evalFilt(&s.Cap, input) {
+					createSeedIn++ // the seed itself is inside the filter: still a not-there → matching transition
+				} else {
+					createOpsIn++
+				}
+				if budget <= 0 {
+					createRefused++
+				}
+			}
+			if creating && b.Seed == nil {
+				createEmptySeed++
 			}
 			if !pre && post {
 				if budget <= 0 {
@@ -743,10 +789,10 @@ func runC12Seq(s C12Seq) pbt.Outcome {
 				transitions++
 			}
 			if creating {
-				model[k] = &rec{true, outB}
+				model[k] = &rec{true, outB, outHas}
 				want = append(want, hydrapb.PatchResult_CREATED)
 			} else {
-				r.b = outB
+				r.b, r.has = outB, outHas
 				want = append(want, hydrapb.PatchResult_PATCHED)
 			}
 		}
@@ -781,12 +827,23 @@ func runC12Seq(s C12Seq) pbt.Outcome {
 			if !ok {
 				continue
 			}
-			got, err := decodeWrapped(tr.BytesVal)
-			if err != nil || got != r.b {
-				return pbt.Failf("budget", "batch %d: key %s body %v (%v), model %v", bi, k, got, err, r.b)
+			raw, okm := unwrapBody(tr.BytesVal)
+			got, gotHas, err := decodePartialBody(raw)
+			if !okm || err != nil || got != r.b || gotHas != r.has {
+				return pbt.Failf("budget", "batch %d: key %s body %v fields %+v (%v), model %v fields %+v", bi, k, got, gotHas, err, r.b, r.has)
 			}
 		}
-		n, keys, _ := c12Count(all, &s.Cap)
+		n := 0
+		var keys []string
+		for k, tr := range all {
+			if raw, okm := unwrapBody(tr.BytesVal); okm {
+				if got, gotHas, err := decodePartialBody(raw); err == nil && evalFiltPartial(&s.Cap, got, gotHas) {
+					n++
+					keys = append(keys, k)
+				}
+			}
+		}
+		sort.Strings(keys)
 		if n > int(s.Max) {
 			return pbt.Failf("cap-exceeded", "after batch %d: %d records match the cap filter, cap is %d: %v", bi, n, s.Max, keys)
 		}
@@ -800,6 +857,18 @@ func runC12Seq(s C12Seq) pbt.Outcome {
 	}
 	if inIn > 0 {
 		out.Classes = append(out.Classes, "has-in-to-in")
+	}
+	if createSeedIn > 0 {
+		out.Classes = append(out.Classes, "create-with-seed-inside-filter")
+	}
+	if createOpsIn > 0 {
+		out.Classes = append(out.Classes, "create-moved-in-by-ops")
+	}
+	if createRefused > 0 {
+		out.Classes = append(out.Classes, "create-refused-by-cap")
+	}
+	if createEmptySeed > 0 {
+		out.Classes = append(out.Classes, "create-with-empty-seed")
 	}
 	return out
 }
@@ -815,7 +884,7 @@ func statuses(rs []*hydrapb.PatchResult) []hydrapb.PatchResult_StatusCode {
 func TestC12Budget(t *testing.T) {
 	pbt.Main(t, pbt.Spec[C12Seq]{
 		ID: "C12", Facet: "budget",
-		Rule: "sequential: 1–3 PatchTreasures(Cap) batches of 1–6 explicit-key patches (duplicate keys, conditions, creates with a seed) on 3–14 records; every per-key status, CapReached, the stored bodies and the " +
+		Rule: "sequential: 1–3 PatchTreasures(Cap) batches of 1–6 explicit-key patches (duplicate keys, conditions, creates on missing keys with a seed body drawn inside or outside the cap filter or with the default empty seed, ops that move in / keep in / move out) on 3–14 records; a create is a not-there → (post matches ? one unit : free) transition whatever the seed; every per-key status, CapReached, the stored bodies and the " +
 			"matching count are compared with a model of the documented four-cell rule (only not-matching→matching consumes one unit of MaxMatching − currentMatching; refused ⇒ CAP_EXCEEDED, no mutation; CapReached iff one was refused). " +
 			"Non-trivial = at least one transition accepted and one refused.",
 		Quick: 6000, Thorough: 100000,
